@@ -16,6 +16,8 @@ PROPERTY = 'C13'
 
 VAL_ALPHA = ['x', '=', ' ', '"', '2', '5', '0', '.', 'O', 'K']
 KEYS = ['a', 'a/b', 'ab', 'b']
+# GETINFO key names Tor really has: dots, '$', '+', '*', '~', '-' are all legal in them
+ODD_KEYS = ['ip-to-country/1.2.3.4', 'ns/id/$ABCD', 'dir/status/fp/A+B', 'net/listeners/*', 'md/name/x~y', 'address-mappings/all', 'ns/name/a.b']
 CRIT = ['', 'x', 'x y', '=', 'a=b', 'b=1', 'k=v w', '"', '"x"', '"x y"', "'q'", '250 OK', '250', 'OK', '.', '..', '650 a',
         ' x', 'x ', '5']
 CRIT_SMALL = ['', 'x y', 'b=1', '"x"', 'OK', '250 OK', '.', 'a=b']
@@ -179,6 +181,7 @@ def tasks(tier, seed):
     for first in ML_LINES:
         out.append(('ml', first))
     out.append(('conf',))
+    out.append(('keynames',))
     return out
 
 
@@ -203,6 +206,9 @@ def _run_params(p, viol):
         _LAST_OC[0] = check_getinfo(list(p['keys']), values, p['single'], viol)
     else:
         _LAST_OC[0] = check_getconf(p['key'], p['values'], p['single'], p['spelling'], viol)
+    if p['kind'] == 'info' and any(any(not (c.isalnum() or c in '/-_') for c in k) for k in p['keys']):
+        for i, v in enumerate(viol):
+            viol[i] = (v[0], v[1] + '/odd-key-name', v[2])
     pre = p.get('pre')
     if pre:
         for i, v in enumerate(viol):
@@ -221,7 +227,7 @@ def minimal(replay, clause):
         start = tuple(zip(replay['keys'], [tuple(v) if isinstance(v, (list, tuple)) else v for v in replay['values']]))
 
         def mk(c):
-            if not c or any(len(kv) != 2 or kv[0] not in KEYS for kv in c):
+            if not c or any(len(kv) != 2 or kv[0] not in KEYS + ODD_KEYS for kv in c):
                 return None
             if len(set(kv[0] for kv in c)) != len(c):
                 return None
@@ -244,7 +250,7 @@ def minimal(replay, clause):
         if p is None:
             return False
         return any(v[0] == clause for v in run_params(p))
-    out = mk(minimise(start, fails))
+    out = mk(minimise(start, fails)) or replay
     _MIN[k] = out
     return out
 
@@ -296,6 +302,14 @@ def run_task(param, acc):
                     rec(acc, ('ml', lines, single), oc, viol, dict(kind='info', keys=[key], values=[list(lines)], single=single, ml=True),
                         cost=50 * len(lines) + sum(len(x) for x in lines))
         acc.sample(dict(call='get_info', keys=[key], multiline_value=list(lines)), limit=1)
+    elif param[0] == 'keynames':
+        for k in ODD_KEYS:
+            for ks in ((k,), (k, 'a'), ('a', k), (k, ODD_KEYS[(ODD_KEYS.index(k) + 1) % len(ODD_KEYS)])):
+                for values in itertools.product(CRIT_SMALL, repeat=len(ks)):
+                    viol = run_params(dict(kind='info', keys=list(ks), values=list(values), single=False, pre=None))
+                    oc = _LAST_OC[0]
+                    rec(acc, ('keynames', ks, values), oc, viol, dict(kind='info', keys=list(ks), values=list(values), single=False, pre=None, odd=True),
+                        cost=100 * len(ks) + sum(len(v) for v in values))
     else:
         for spelling, key in (('SocksPort', 'SocksPort'), ('SocksPort', 'SOCKSPORT'), ('HiddenServiceDir', 'hiddenservicedir')):
             cases = [None]
